@@ -4,9 +4,10 @@ use jrsonnet_ir::{BinaryOpType, Expr, UnaryOpType};
 
 use crate::{
 	arr::ArrValue,
-	bail,
+	bail, ensure_sufficient_stack,
 	error::ErrorKind::*,
 	evaluate,
+	stack::check_depth,
 	stdlib::std_format,
 	typed::IntoUntyped as _,
 	val::{equals, StrValue},
@@ -175,11 +176,14 @@ pub fn evaluate_compare_op(a: &Val, b: &Val, op: BinaryOpType) -> Result<Orderin
 		(BigInt(a), BigInt(b)) => a.cmp(b),
 
 		(Arr(a), Arr(b)) => {
+			// Counted against the stack limit: arrays that contain themselves must end in an error
+			let _depth = check_depth()?;
 			let ai = a.iter();
 			let bi = b.iter();
 
 			for (a, b) in ai.zip(bi) {
-				let ord = evaluate_compare_op(&a?, &b?, op)?;
+				let (a, b) = (a?, b?);
+				let ord = ensure_sufficient_stack(|| evaluate_compare_op(&a, &b, op))?;
 				if !ord.is_eq() {
 					return Ok(ord);
 				}
